@@ -2447,6 +2447,11 @@ class MultiUserChannelMatrixExtInt(  # pylint: disable=R0904
         # receiver.
         self._pathloss_matrix = pathloss_matrix
 
+        # Reset the _big_H_with_pathloss and _H_with_pathloss. They will be
+        # correctly set the first time the H or big_H properties are read.
+        self._big_H_with_pathloss = None
+        self._H_with_pathloss = None
+
         if pathloss_matrix is None:
             self._pathloss_matrix = None
             self._pathloss_big_matrix = None
